@@ -28,8 +28,15 @@ class PrefixVars:
     def bool(self, name):
         return self._V.bool(self._p + name)
 
-    def time(self, name, nat=False):
-        return self._V.time(self._p + name, nat=nat)
+    def time(self, name, nat=False, frac=False):
+        return self._V.time(self._p + name, nat=nat, frac=frac)
+
+    def string(self, name, maxlen, alphabet=None):
+        return self._V.string(self._p + name, maxlen, alphabet)
+
+    @property
+    def grid(self):
+        return self._V.grid
 
     def times_increasing(self, prefix, n, **kw):
         return self._V.times_increasing(self._p + prefix, n, **kw)
